@@ -63,6 +63,12 @@ def envUnset (e : PEnv) (k : Str) : Bool × PEnv := if validName k then (true, e
 /-- `setenv(name, value, 1) == 0` -/
 def envSet (e : PEnv) (k v : Str) : Bool × PEnv := if validName k then (true, (k, v) :: envRemove k e) else (false, e)
 
+/-- `getenv(name)`: null or the value of the variable (the pointer to its NUL-free bytes, so `String(var, String::length(var))` is the value) -/
+def envGet (e : PEnv) (k : Str) : Option Str :=
+  match e.find? (fun kv => kv.1 == k) with
+  | some kv => some kv.2
+  | none => none
+
 def wexitstatus (st : Int) : Nat := (st / 256 % 256).toNat
 
 def EINVAL : Nat := 22
